@@ -4,6 +4,7 @@ From Coq Require Import List Arith Bool NArith.
 From GV Require Import Base.Result Gen.TokenTypes Gen.Defs Model.Parser Model.BuilderWL Spec.TreeShape
   Spec.TokenAccount
   Proofs.C03.Bounded Proofs.C03.Bounded4 Proofs.C04.Bounded Proofs.C04.Shape Proofs.C04.Validated Proofs.C04.Tokens Proofs.C04.TokensTree.
+From GV Require Import Spec.RefTable Spec.Pratt Spec.Chains Proofs.C04.InOrder.
 Import ListNotations.
 
 (* UNBOUNDED, for every token list: whenever parse accepts, the node links it returns
@@ -111,3 +112,38 @@ Proof. vm_compute. reflexivity. Qed.
 (* full statement (not proved for unbounded length) *)
 Definition C04_full_statement : Prop :=
   forall toks : list token_type, c04_ok toks = true.
+
+(* UNBOUNDED on the operator fragment, the walk order: for every token list on which the
+   reference parser of C02 (Spec.Pratt) is defined -- every operator expression of any
+   length and bracket depth: values, prefix / suffix / binary operators, the implicit space
+   list, round brackets, whitespace anywhere (C02_full, C02_operator_expressions) -- parse
+   accepts, the in-order walk of the accepted tree (Spec.TreeShape.inorder) visits the nodes
+   0, 1, 2, ..., i.e. node indices are in source order, and the existing checker clause
+   [tokens_in_order_b] holds: every visited node is the implicit list node or carries a token
+   index, these indices increase strictly along the walk, and every token that is not
+   trivia is met.  (The node labels follow the tokens by C04_tokens_accounted; what this
+   adds is that the LINKS put them in the walk in that order.) *)
+Theorem C04_in_order_operator_expressions : forall (toks : list token_type) (t : rtree),
+  pratt toks = Some t ->
+  exists root ns,
+    parse toks = Ok (root, ns) /\ ns <> [] /\
+    inorder ns root = Some (seq 0 (length ns)) /\
+    tokens_in_order_b toks (fst (trim_tokens toks)) ns root = true.
+Proof. exact in_order_when_reference_defined. Qed.
+Print Assumptions C04_in_order_operator_expressions.
+
+(* non-vacuity: the hypothesis holds on `(a + b) * -(c = (d e))~~ (1)` (23 tokens, brackets
+   three deep, two implicit lists); its 17 nodes are walked in the order 0..16, and the
+   token indices met are the 15 significant ones out of 23 *)
+Example C04_in_order_ex :
+  let toks := [TT_StartGroup; TT_Identifier; TT_Whitespace; TT_PlusSign; TT_Whitespace; TT_Identifier; TT_EndGroup;
+               TT_MultiplicationSign; TT_Opposite; TT_StartGroup; TT_Identifier; TT_Pair; TT_StartGroup; TT_Identifier;
+               TT_Whitespace; TT_Identifier; TT_EndGroup; TT_EndGroup; TT_EmptyApply;
+               TT_Whitespace; TT_StartGroup; TT_Number; TT_EndGroup] in
+  (match pratt toks with Some _ => true | None => false end) = true /\
+  match parse toks with
+  | Ok (root, ns) => inorder ns root = Some (seq 0 17) /\
+                     real_toks (labels ns) = [0; 1; 3; 5; 7; 8; 9; 10; 11; 12; 13; 15; 18; 20; 21]
+  | _ => False
+  end.
+Proof. vm_compute. repeat split; reflexivity. Qed.
